@@ -111,3 +111,12 @@ async fn send_event(
 
 	Ok(())
 }
+
+#[cfg(watchexec_verif)]
+pub(crate) async fn verif_send_event(
+	errors: mpsc::Sender<RuntimeError>,
+	events: priority::Sender<Event, Priority>,
+	msg: Keyboard,
+) -> Result<(), CriticalError> {
+	send_event(errors, events, msg).await
+}
